@@ -216,36 +216,36 @@ func (st *Settings) Read(d []byte) error {
 func (st *Settings) Encode() {
 	st.rawSettings = st.rawSettings[:0]
 
-	if st.tableSize != 0 {
-		st.rawSettings = append(st.rawSettings,
-			byte(HeaderTableSize>>8), byte(HeaderTableSize),
-			byte(st.tableSize>>24), byte(st.tableSize>>16),
-			byte(st.tableSize>>8), byte(st.tableSize),
-		)
-	}
+	// HEADER_TABLE_SIZE, MAX_CONCURRENT_STREAMS and INITIAL_WINDOW_SIZE are
+	// always sent: leaving one out tells the peer to assume the protocol
+	// default (4096, unlimited, 65535), not zero, and it would then act on a
+	// limit this endpoint does not have.
+	st.rawSettings = append(st.rawSettings,
+		byte(HeaderTableSize>>8), byte(HeaderTableSize),
+		byte(st.tableSize>>24), byte(st.tableSize>>16),
+		byte(st.tableSize>>8), byte(st.tableSize),
+	)
 
-	if st.enablePush {
+	// ENABLE_PUSH defaults to 1, so it is the refusal that has to be spelled
+	// out. A server never sends 1 (RFC 9113 6.5.2), so true is left implicit.
+	if !st.enablePush {
 		st.rawSettings = append(st.rawSettings,
 			byte(EnablePush>>8), byte(EnablePush),
-			0, 0, 0, 1,
+			0, 0, 0, 0,
 		)
 	}
 
-	if st.maxStreams != 0 {
-		st.rawSettings = append(st.rawSettings,
-			byte(MaxConcurrentStreams>>8), byte(MaxConcurrentStreams),
-			byte(st.maxStreams>>24), byte(st.maxStreams>>16),
-			byte(st.maxStreams>>8), byte(st.maxStreams),
-		)
-	}
+	st.rawSettings = append(st.rawSettings,
+		byte(MaxConcurrentStreams>>8), byte(MaxConcurrentStreams),
+		byte(st.maxStreams>>24), byte(st.maxStreams>>16),
+		byte(st.maxStreams>>8), byte(st.maxStreams),
+	)
 
-	if st.windowSize != 0 {
-		st.rawSettings = append(st.rawSettings,
-			byte(MaxWindowSize>>8), byte(MaxWindowSize),
-			byte(st.windowSize>>24), byte(st.windowSize>>16),
-			byte(st.windowSize>>8), byte(st.windowSize),
-		)
-	}
+	st.rawSettings = append(st.rawSettings,
+		byte(MaxWindowSize>>8), byte(MaxWindowSize),
+		byte(st.windowSize>>24), byte(st.windowSize>>16),
+		byte(st.windowSize>>8), byte(st.windowSize),
+	)
 
 	if st.frameSize != 0 {
 		st.rawSettings = append(st.rawSettings,
